@@ -863,3 +863,28 @@ def default_matmul(kernel, M, N, K, types=None, space="L1"):
     r = dict(form="operation", kernel=kernel, acc=k["acc"], dims=3, bounds=[M, N, K],
              operands=[_mk_operand([], t, _unit_rows(s, 3), space=space) for t, s in zip(types, sels)], tags=["sweep:matmul"])
     return fit_shapes(r)
+
+
+def largest_divisor_up_to(s, T):
+    return max(t for t in range(1, min(s, T) + 1) if s % t == 0)
+
+
+def tiled_schedule_of(r, T_per_dim):
+    """Turn an operation recipe with bounds into a dart.schedule recipe the way the scheduler would for perfectly divisible
+    shapes, but for ANY shape: iteration dim d is split by the largest divisor of its bound that is <= T_per_dim[d]
+    (no split if that is 1 or the whole bound); order: all outer dims, then all inner tiles."""
+    out = dict(r, form="schedule", operands=[dict(o) for o in r["operands"]], tags=list(r.get("tags", [])) + ["sweep:direct"])
+    inner = []
+    d = 0
+    for T in T_per_dim:
+        B = out["bounds"][d]
+        t = largest_divisor_up_to(B, T) if T else 1
+        if 1 < t < B:
+            out = tile_recipe(out, d, t)
+            inner.append(d + 1)
+            d += 2
+        else:
+            d += 1
+    nd = out["dims"]
+    outer = [q for q in range(nd) if q not in inner]
+    return permute_recipe(out, outer + inner)
